@@ -2,13 +2,14 @@ import ZChain.Drv.Util
 import ZChain.Model.Provider
 /-! Line driver for `Model/Provider.lean` (C23 and C11 share it).
 
-`init <demeter 0|1> <killSlash hex16> <minLock s> <order: ids,…> <id=balance,…>`   → `ok`
+`init <demeter 0|1> <killSlash hex16> <minLock s> <order: ids,…> <id=balance,…> <storagesc min_stake_per_delegate>` → `ok`
    (ids: 0 minersc, 1 storagesc, 2 zcnsc, 3 owner; `order` = every id in ascending order of its hex client id)
 `reg <kind> <pid> <wallet> <maxDelegates> <ratio hex16>`  → `ok` | `fail:<class>`
 `lock <kind> <pid> <client> <value> <now>`                → `<status> <leaf diff>`
 `unlock <kind> <pid> <client> <wall>` · `collect <kind> <pid> <client>` · `kill <kind> <reqId> <caller>` ·
 `shutdown <kind> <reqId> <caller>`                        → `<status> <leaf diff>`
 `reward <kind> <pid> <value>`                             → `ok <leaf diff>` | `fail:<class>`   (no transaction: no nonce)
+`setdata <blobber> <0|1>`                                 → `ok <leaf diff>` | `fail:<class>`  (SavedData > 0 or = 0; no transaction)
 `alloc <client> <b1> <b2> <offer>`                        → `ok` | `fail`
 `payfees`                                                 → `rewarded-dead=`  (real payFees dry run: no dead node may change)
 `dump`                                                    → canonical state
@@ -37,13 +38,16 @@ def coin (n : Nat) : Nat := n * 10000000000
 
 /-- constants of the repo's sc.yaml (min_stake / max_stake of the three contracts, min_stake_per_delegate); a deviation of
 the real configuration shows up as a disagreement on the first lock or dump. -/
-def mkCfg (demeter : Bool) (slash : F64) (minLock : Nat) : Cfg :=
+def mkCfg (demeter : Bool) (slash : F64) (minLock : Nat) (spMin : Nat) : Cfg :=
   { owner := 3, killSlash := slash, demeter := demeter,
     minStake := fun k => match k with
       | .blobber | .validator => 100000000      -- storagesc stakepool.min_stake 0.01
       | _ => 0,
     maxStake := fun _ => coin 20000,
-    minLock := minLock, spMinStake := coin 1 }
+    minLock := minLock,
+    spMinStake := fun k => match k with
+      | .blobber | .validator => spMin          -- storagesc min_stake_per_delegate (set by the case)
+      | _ => coin 1 }
 
 structure W where
   cfg : Cfg
@@ -103,18 +107,20 @@ def b01 (b : Bool) : String := if b then "1" else "0"
 def kindIdx : Kind → Nat
   | .miner => 1 | .sharder => 2 | .blobber => 3 | .validator => 4 | .authorizer => 5
 
+/-- `i0`: the record has the layout its contract reads (the Go side prints `i1` for an authorizer record stored in the
+inner `stakepool.StakePool` layout, the defect repaired by fc9e9de — a regression shows as a disagreement). -/
 def showSP (k : Kind) (i : Id) (sp : SP) : String :=
   let ps := (sortNat (sp.pools.map (·.1)).eraseDups).filterMap fun j =>
     (kvGet sp.pools j).map fun d => s!"{j}={d.balance}/{d.reward}/{d.stakedAt}"
   let w := match sp.wallet with
     | some x => toString x
     | none => "-"
-  s!"{k.tag}:{i}:d{b01 sp.dead}:o{sp.offers}:r{sp.reward}:w{w}:m{sp.maxDelegates}:s{sp.minStake}:c{sp.ratio.toHex}:i{b01 sp.inner}" ++
+  s!"{k.tag}:{i}:d{b01 sp.dead}:o{sp.offers}:r{sp.reward}:w{w}:m{sp.maxDelegates}:s{sp.minStake}:c{sp.ratio.toHex}:i0" ++
     "{" ++ ";".intercalate ps ++ "}"
 
 def dump (s : State) : String :=
   let provs := (sortNat (s.provs.map (·.1)).eraseDups).filterMap fun i =>
-    (kvGet s.provs i).map fun p => s!"{i}:{p.kind.tag}:{b01 p.shutDown}:{b01 p.killed}"
+    (kvGet s.provs i).map fun p => s!"{i}:{p.kind.tag}:{b01 p.shutDown}:{b01 p.killed}:h{b01 p.hasData}"
   let keys := (s.sps.map (·.1)).eraseDups.mergeSort
     (fun a b => decide (kindIdx a.1 < kindIdx b.1 ∨ (kindIdx a.1 = kindIdx b.1 ∧ a.2 ≤ b.2)))
   let sps := keys.filterMap fun kk => (kvGet s.sps kk).map (showSP kk.1 kk.2)
@@ -125,18 +131,18 @@ def dump (s : State) : String :=
     ",".intercalate ((sortNat s.vpart).map toString) ++ "] accts=[" ++ ",".intercalate accts ++ "]"
 
 def emptyState : State := { accts := [], provs := [], sps := [], vpart := [], order := [] }
-def initW : W := { cfg := mkCfg true F64.zero 0, st := emptyState }
+def initW : W := { cfg := mkCfg true F64.zero 0 (coin 1), st := emptyState }
 
 def step (w : W) (ws : List String) : W × String :=
   match ws with
-  | ["init", dm, slash, ml, order, accts] =>
-    match F64.ofHex? slash, num? ml, ids? order, allSome ((accts.splitOn ",").map bal?) with
-    | some sl, some ml, some ord, some bs =>
+  | ["init", dm, slash, ml, order, accts, spm] =>
+    match F64.ofHex? slash, num? ml, ids? order, allSome ((accts.splitOn ",").map bal?), num? spm with
+    | some sl, some ml, some ord, some bs, some spm =>
       if dm = "0" ∨ dm = "1" then
-        ({ cfg := mkCfg (dm = "1") sl ml,
+        ({ cfg := mkCfg (dm = "1") sl ml spm,
            st := { emptyState with order := ord, accts := bs.map fun p => (p.1, ⟨p.2, 0⟩) } }, "ok")
       else (w, "bad-op")
-    | _, _, _, _ => (w, "bad-op")
+    | _, _, _, _, _ => (w, "bad-op")
   | ["reg", k, pid, wal, md, ratio] =>
     match Kind.ofTag? k, num? pid, num? wal, num? md, F64.ofHex? ratio with
     | some k, some pid, some wal, some md, some ratio =>
@@ -195,6 +201,15 @@ def step (w : W) (ws : List String) : W × String :=
         | .error _ => ({ w with st := { w.st with accts := bumpNonce w.st.accts c } }, "fail")
       else ({ w with st := { w.st with accts := bumpNonce w.st.accts c } }, "fail")
     | _, _, _, _ => (w, "bad-op")
+  | ["setdata", pid, d] =>
+    match num? pid with
+    | some pid =>
+      if d = "0" ∨ d = "1" then
+        match setData w.st pid (d = "1") with
+        | .ok s => ({ w with st := s }, ("ok " ++ leafDiff w.st s).trimAscii.toString)
+        | .error e => (w, "fail:" ++ e.tag)
+      else (w, "bad-op")
+    | none => (w, "bad-op")
   | ["payfees"] => (w, "rewarded-dead=")
   | ["dump"] => (w, dump w.st)
   | _ => (w, "bad-op")
